@@ -226,12 +226,50 @@ def r8_visit(run, F):
     run.require(n >= 6, "too few visit obligations (%d)" % n)
 
 
+def r9_body_kept_on_return_errors(run, F):
+    """Label errors (E400 / E420) are planted in the statements of a function body by the label scoper, which only looks at bodies
+    the parser handed over.  parse_function_body builds two diagnostics of its own about the end of the body: a missing return
+    value (E335) is planted as the poisoned return value of an otherwise intact body, so everything in the statements is still
+    analysed; only a semicolon after the return value (E302, reviewed) gives the body up.  An E335 that gives the body up too
+    hides every illegal goto of that function behind it."""
+    from rules import origins
+    b = F.body("alpha::parser::parse_function_body")
+    given_up = []
+    for r in walk(b["hir"]):
+        if r.get("k") != "Ret" or not isinstance(r.get("e"), dict):
+            continue
+        v = hirq.unwrap_trivial(r["e"])
+        if not (v.get("k") == "Call" and (hirq.callee(v) or "").endswith("::Err") and v.get("a")):
+            continue
+        # which error built in this function is handed back (through `.into()` / locals)
+        seen = set()
+        work = [v["a"][0]]
+        defs = origins.definitions(b["hir"], b.get("params", ()))
+        while work:
+            e = work.pop()
+            for x in walk(e):
+                if x.get("k") == "Struct" and "error::Error::" in str(x.get("path", "")):
+                    given_up.append((str(x["path"]).split("::")[-1], r))
+                elif x.get("k") == "Path" and x.get("rk") == "Local" and x.get("lid") not in seen:
+                    seen.add(x["lid"])
+                    for src, path in defs.get(x["lid"], []):
+                        if src is not None:
+                            work.append(src)
+    names = sorted(set(n for n, _ in given_up))
+    extra = [g for g in given_up if g[0] not in ("UnexpectedSemicolonAfterReturnValue",)]
+    planted = [hirq.short(p) for p, _ in hirq.constructs(b["hir"])]
+    run.ob("R9-BODY-KEPT-ON-RETURN-ERRORS", "parse_function_body", not extra and "Error::MissingReturnValueAfterStatement" in planted, F.where(b, extra[0][1]) if extra else F.where(b),
+           "diagnostics that parse_function_body builds itself and answers with `return Err(..)` (the statements parsed so far are dropped, and with them every "
+           "E400/E420 the label scoper would have found): %s; reviewed: only UnexpectedSemicolonAfterReturnValue" % names)
+
+
 def check(run):
     F = run.facts("B")
     # diagnostics planted in the later parts of a statement only surface if the resolver merges the errors of all parts (shared with C06.R7)
     from props import c06 as _c06
     _c06.r7_errors_merged(run, F)
     _c06.r8_combiners_keep_both(run, F)
+    r9_body_kept_on_return_errors(run, F)
     r1_balance(run, F)
     r2_reverse(run, F)
     r3_lookup(run, F)
